@@ -332,7 +332,9 @@ Definition eol_ok (p : bool) (e : eolc) : bool :=
 
 Inductive fval :=
 | VName (ls : list label) | VU16 (n : N) | VU32 (n : N) | VOct (n : N)
-| VIp4 (a b c d : N) | VIp6 (gs : list N) | VStr (s : bytes).
+| VIp4 (a b c d : N) | VIp6 (gs : list N) | VStr (s : bytes)
+| VProto (p : N)                       (* WKS: the IP protocol number *)
+| VPort (p : N).                       (* WKS: one port of the list; the ports together give the bit map *)
 
 Definition field_wire (f : fval) : bytes :=
   match f with
@@ -342,14 +344,35 @@ Definition field_wire (f : fval) : bytes :=
   | VIp4 a b c d => [a; b; c; d]
   | VIp6 gs => flat_map sbe16 gs
   | VStr s => string_wire s
+  | VProto p => [p]
+  | VPort _ => []                       (* see [wks_bitmap] *)
   end.
 
-Inductive fchoice := CName (nc : nchoice) | CInt (ic : ichoice) | CIp6 (c : ip6choice) | CStr (sc : schoice) | CPlain.
+(* the protocol of a WKS record: the mnemonics TCP / UDP in any letter case, or the number *)
+Inductive pchoice := PTcp (lows : list bool) | PUdp (lows : list bool) | PNum (ic : ichoice).
+Definition w_tcp : bytes := [84; 67; 80].
+Definition w_udp : bytes := [85; 68; 80].
+Definition render_proto (pc : pchoice) (p : N) : bytes :=
+  match pc with
+  | PTcp lows => apply_case lows w_tcp
+  | PUdp lows => apply_case lows w_udp
+  | PNum ic => render_uint ic p
+  end.
+Definition proto_ok (pc : pchoice) (p : N) : bool :=
+  match pc with
+  | PTcp _ => p =? 6
+  | PUdp _ => p =? 17
+  | PNum ic => uint_ok 255 ic p
+  end.
+
+Inductive fchoice := CName (nc : nchoice) | CInt (ic : ichoice) | CIp6 (c : ip6choice) | CStr (sc : schoice) | CPlain
+                   | CProto (pc : pchoice).
 
 Definition fc_name (fc : fchoice) : nchoice := match fc with CName nc => nc | _ => NAbs [] end.
 Definition fc_int (fc : fchoice) : ichoice := match fc with CInt ic => ic | _ => i_plain end.
 Definition fc_ip6 (fc : fchoice) : ip6choice := match fc with CIp6 c => c | _ => mkIp6 [] [] end.
 Definition fc_str (fc : fchoice) : schoice := match fc with CStr sc => sc | _ => SQuoted [] end.
+Definition fc_proto (fc : fchoice) : pchoice := match fc with CProto pc => pc | _ => PNum i_plain end.
 
 Definition render_field (fc : fchoice) (f : fval) : bytes :=
   match f with
@@ -359,6 +382,8 @@ Definition render_field (fc : fchoice) (f : fval) : bytes :=
   | VIp4 a b c d => render_ip4 a b c d
   | VIp6 gs => render_ip6 (fc_ip6 fc) gs
   | VStr s => render_string (fc_str fc) s
+  | VProto p => render_proto (fc_proto fc) p
+  | VPort p => render_uint (fc_int fc) p
   end.
 
 Definition field_ok (first : bool) (origin : option (list label)) (fc : fchoice) (f : fval) : bool :=
@@ -370,6 +395,8 @@ Definition field_ok (first : bool) (origin : option (list label)) (fc : fchoice)
   | VIp4 a b c d, CPlain => ip4_ok a b c d
   | VIp6 gs, CIp6 c => ip6_ok c gs
   | VStr s, CStr sc => string_ok first sc s
+  | VProto p, CProto pc => proto_ok pc p
+  | VPort p, CInt ic => uint_ok 65535 ic p
   | _, _ => false
   end.
 
@@ -377,15 +404,16 @@ Definition field_ok (first : bool) (origin : option (list label)) (fc : fchoice)
 Definition field_closed (fc : fchoice) (f : fval) : bool :=
   match f, fc with VStr _, CStr (SQuoted _) => true | _, _ => false end.
 
-Inductive fkind := KName | KU16 | KU32 | KOct | KIp4 | KIp6 | KStr.
+Inductive fkind := KName | KU16 | KU32 | KOct | KIp4 | KIp6 | KStr | KProto | KPort.
 Definition kind_of (f : fval) : fkind :=
   match f with
   | VName _ => KName | VU16 _ => KU16 | VU32 _ => KU32 | VOct _ => KOct
-  | VIp4 _ _ _ _ => KIp4 | VIp6 _ => KIp6 | VStr _ => KStr
+  | VIp4 _ _ _ _ => KIp4 | VIp6 _ => KIp6 | VStr _ => KStr | VProto _ => KProto | VPort _ => KPort
   end.
 Definition fkind_eqb (a b : fkind) : bool :=
   match a, b with
-  | KName, KName | KU16, KU16 | KU32, KU32 | KOct, KOct | KIp4, KIp4 | KIp6, KIp6 | KStr, KStr => true
+  | KName, KName | KU16, KU16 | KU32, KU32 | KOct, KOct | KIp4, KIp4 | KIp6, KIp6 | KStr, KStr
+  | KProto, KProto | KPort, KPort => true
   | _, _ => false
   end.
 Fixpoint kinds_eqb (a b : list fkind) : bool :=
@@ -396,15 +424,16 @@ Fixpoint kinds_eqb (a b : list fkind) : bool :=
   end.
 
 (* RFC 1035 §3.3, §3.4, RFC 3596 §2.2, RFC 2782: the RDATA fields of the types with a presentation
-   format of their own; TXT is one or more strings; every other type (and WKS, see docs/C23.md) has
-   only the RFC 3597 form *)
+   format of their own; TXT is one or more strings, WKS (class IN) an address, a protocol and any number of
+   ports; every other type has only the RFC 3597 form *)
 Definition name_types : list N := [2; 3; 4; 5; 7; 8; 9; 12].                 (* NS MD MF CNAME MB MG MR PTR *)
-Inductive rform := FFixed (ks : list fkind) | FTxt | FNone.
+Inductive rform := FFixed (ks : list fkind) | FTxt | FWks | FNone.
 Definition rform_of (class type : N) : rform :=
   if existsb (N.eqb type) name_types then FFixed [KName]
   else if (type =? 1) && (class =? 1) then FFixed [KIp4]
   else if (type =? 1) && (class =? 3) then FFixed [KName; KOct]
   else if type =? 6 then FFixed [KName; KName; KU32; KU32; KU32; KU32; KU32]
+  else if (type =? 11) && (class =? 1) then FWks
   else if type =? 13 then FFixed [KStr; KStr]
   else if type =? 14 then FFixed [KName; KName]
   else if type =? 15 then FFixed [KU16; KName]
@@ -412,7 +441,16 @@ Definition rform_of (class type : N) : rform :=
   else if (type =? 28) && (class =? 1) then FFixed [KIp6]
   else if (type =? 33) && (class =? 1) then FFixed [KU16; KU16; KU16; KName]
   else FNone.
-Definition is_wks (class type : N) : bool := (type =? 11) && (class =? 1).
+
+(* RFC 1035 §3.4.2 <BIT MAP>: one bit per port, as many octets as the highest port needs.  NOTE the order of
+   the bits inside an octet follows the implementation (port 8k+b is bit 2^b; the RFC counts from the most
+   significant bit — finding 3 of docs/C23.md). *)
+Definition ports_of (fs : list fval) : list N := flat_map (fun f => match f with VPort p => [p] | _ => [] end) fs.
+Definition wks_octet (ports : list N) (i : N) : N :=
+  fold_left N.lor (map (fun p => if p / 8 =? i then 2 ^ (p mod 8) else 0) ports) 0.
+Definition wks_len (ports : list N) : nat :=
+  match ports with [] => O | _ => S (N.to_nat (fold_right N.max 0 ports / 8)) end.
+Definition wks_bitmap (ports : list N) : bytes := map (fun i => wks_octet ports (N.of_nat i)) (seq 0 (wks_len ports)).
 
 Inductive ardata :=
 | AFields (fs : list fval)              (* a type with its own syntax: the values of its fields *)
@@ -420,7 +458,7 @@ Inductive ardata :=
 
 Definition rdata_wire (d : ardata) : bytes :=
   match d with
-  | AFields fs => flat_map field_wire fs
+  | AFields fs => match ports_of fs with [] => flat_map field_wire fs | ps => flat_map field_wire fs ++ wks_bitmap ps end
   | AGeneric data => data
   end.
 
@@ -433,6 +471,8 @@ Definition value_ok (f : fval) : bool :=
   | VIp4 a b c d => ip4_ok a b c d
   | VIp6 gs => (length gs =? 8)%nat && forallb (fun g => g <? 65536) gs
   | VStr s => (length s <=? 255)%nat && forallb (fun c => c <? 256) s
+  | VProto p => p <=? 255
+  | VPort p => p <=? 65535
   end.
 
 Definition fields_fit (class type : N) (fs : list fval) : bool :=
@@ -440,6 +480,13 @@ Definition fields_fit (class type : N) (fs : list fval) : bool :=
   match rform_of class type with
   | FFixed ks => kinds_eqb (map kind_of fs) ks
   | FTxt => negb (kinds_eqb (map kind_of fs) []) && forallb (fun f => fkind_eqb (kind_of f) KStr) fs
+  | FWks =>
+    match fs with
+    | f1 :: f2 :: ports =>
+      fkind_eqb (kind_of f1) KIp4 && fkind_eqb (kind_of f2) KProto && forallb (fun f => fkind_eqb (kind_of f) KPort) ports
+      && (N.of_nat (length ports) <=? 65535)
+    | _ => false
+    end
   | FNone => false
   end.
 
@@ -447,7 +494,7 @@ Definition rdata_fits (class type : N) (d : ardata) : bool :=
   match d with
   | AFields fs => fields_fit class type fs
   | AGeneric _ =>
-    negb (is_wks class type) && match rform_of class type with FNone => true | _ => false end
+    match rform_of class type with FNone => true | _ => false end
   end.
 
 (* presentation of the RDATA: the type's own fields, each preceded by a separator, or RFC 3597 §5
